@@ -91,9 +91,9 @@ type Ctl struct {
 	PlotCalls int
 	Log       []string
 	// behaviour of scripted plots
-	CreatePlotted func(key string) bool                       // should a newly created DB be already complete
-	FreeOutcome   func(db *FakeDB) (string, time.Duration)    // free-running: outcome and duration
-	OnPlotStart   func(db *FakeDB)                            // called when a scripted plot starts (any goroutine)
+	CreatePlotted func(key string) bool                    // should a newly created DB be already complete
+	FreeOutcome   func(db *FakeDB) (string, time.Duration) // free-running: outcome and duration
+	OnPlotStart   func(db *FakeDB)                         // called when a scripted plot starts (any goroutine)
 	real          bool
 }
 
@@ -324,12 +324,12 @@ func (c *Ctl) DBs() []*FakeDB {
 	return out
 }
 
-func (d *FakeDB) Type() string               { return "massdb.v1" }
-func (d *FakeDB) Close() error               { <-d.StopPlot(); return nil }
-func (d *FakeDB) BitLength() int             { return d.bl }
-func (d *FakeDB) PubKey() *pocec.PublicKey   { return d.pk }
-func (d *FakeDB) PubKeyHash() pocutil.Hash   { return pocutil.PubKeyHash(d.pk) }
-func (d *FakeDB) Ready() bool                { d.mu.Lock(); defer d.mu.Unlock(); return d.Done }
+func (d *FakeDB) Type() string             { return "massdb.v1" }
+func (d *FakeDB) Close() error             { <-d.StopPlot(); return nil }
+func (d *FakeDB) BitLength() int           { return d.bl }
+func (d *FakeDB) PubKey() *pocec.PublicKey { return d.pk }
+func (d *FakeDB) PubKeyHash() pocutil.Hash { return pocutil.PubKeyHash(d.pk) }
+func (d *FakeDB) Ready() bool              { d.mu.Lock(); defer d.mu.Unlock(); return d.Done }
 func (d *FakeDB) GetProof(challenge pocutil.Hash, filter bool) (*poc.DefaultProof, error) {
 	return nil, ErrFakeNoProof
 }
@@ -462,3 +462,6 @@ func (d *FakeDB) Delete() chan error {
 	res <- nil
 	return res
 }
+
+// IsRunning reports whether a scripted plot is in flight on this DB.
+func (d *FakeDB) IsRunning() bool { d.mu.Lock(); defer d.mu.Unlock(); return d.Running }
